@@ -15,7 +15,7 @@ STD_ACCESSORS = ("operator[]", "at", "begin", "end", "rbegin", "rend", "data", "
 EIGEN_ACCESSORS = ("operator()", "operator[]", "coeff", "coeffRef", "data", "col", "row", "rows", "cols", "size", "adjoint", "transpose")
 
 # free functions that take a non-const reference only to hand out a reference into it
-NONMUTATING_FREE = ("boost::get", "std::get", "boost::tuples::get", "std::begin", "std::end", "std::addressof", "boost::addressof")
+NONMUTATING_FREE = ("boost::get", "std::get", "boost::tuples::get", "boost::tuples::get<0>", "boost::tuples::get<1>", "boost::tuples::get<2>", "std::begin", "std::end", "std::addressof", "boost::addressof")
 
 
 class Ctx:
@@ -57,7 +57,7 @@ class Ctx:
                         mut.setdefault(d, []).append(j)
                 elif k == "un" and n["op"] == "&":
                     d = self.root_var(n["sub"])
-                    if d is not None:
+                    if d is not None and not self._addr_is_const_use(j):
                         mut.setdefault(d, []).append(j)
                 elif k in ("call", "construct"):
                     cp = n.get("cparams") or []
@@ -69,7 +69,7 @@ class Ctx:
                     if k == "call" and n["ck"] == "op" and n.get("ismember"):
                         # first arg is the object
                         d = self.root_var(args[0]) if args else None
-                        if d is not None and not n.get("cconst", False) and not accessor:
+                        if d is not None and not n.get("cconst", False) and not accessor and not self._effect_free(n):
                             mut.setdefault(d, []).append(j)
                         off = 1
                     if k == "call" and n["ck"] == "method":
@@ -78,7 +78,7 @@ class Ctx:
                             # calling a non-const method on a by-value local object / through a pointer local:
                             # mutates the object, not the pointer.  Record for objects only.
                             dv = decl.get(d)
-                            if not n.get("arrow") and not accessor:
+                            if not n.get("arrow") and not accessor and not self._effect_free(n):
                                 mut.setdefault(d, []).append(j)
                     if k == "call" and strip_targs(n.get("cname") or "") in NONMUTATING_FREE:
                         continue
@@ -90,6 +90,39 @@ class Ctx:
                                 mut.setdefault(d, []).append(j)
         self._mut = mut
         self._decl = decl
+
+    def _addr_is_const_use(self, addr_node):
+        """&x handed directly to a pointer-to-const parameter does not let the callee modify x"""
+        par = self.fn.parent_map().get(addr_node)
+        if par is None:
+            return False
+        pn = self.fn.nodes[par]
+        if pn["k"] not in ("call", "construct"):
+            return False
+        args = list(pn["args"])
+        cp = list(pn.get("cparams") or [])
+        if pn["k"] == "call" and pn.get("ck") == "op" and pn.get("ismember"):
+            args = args[1:]
+        if addr_node in args:
+            ix = args.index(addr_node)
+            return ix < len(cp) and cp[ix] == "cptr"
+        return False
+
+    def _effect_free(self, callnode):
+        """a member function that is not declared const but (transitively) writes no field of its object"""
+        if self.db is None:
+            return False
+        cf = self.db.callee_fn(callnode)
+        if cf is None or cf.body is None or cf.body < 0:
+            return False
+        eff = self.db.__dict__.get("_effects")
+        if eff is None:
+            from .effects import Effects
+            eff = self.db.__dict__["_effects"] = Effects(self.db)
+        try:
+            return not eff.this_writes(cf)
+        except Exception:
+            return False
 
     def root_var(self, i):
         """decl id of the local/param at the root of an lvalue expression (x, x.f, x[i]) or None."""
@@ -296,7 +329,12 @@ class Ctx:
                 else:
                     r = ("mcall", strip_targs(n.get("cname")), K(n["obj"]) if n.get("obj") is not None else ("none",)) + args
             else:
-                r = ("call", strip_targs(n.get("cname")) or K(n.get("calleeexpr"))) + args
+                nm = strip_targs(n.get("cname")) or K(n.get("calleeexpr"))
+                if isinstance(nm, str) and nm.split("::")[-1] == "get" and "<" in (n.get("callee") or ""):
+                    # tuple element access: keep the index (first template argument)
+                    ta = (n.get("callee") or "").split("<", 1)[1]
+                    nm = "%s<%s>" % (nm, ta.split(",")[0].split(">")[0].strip())
+                r = ("call", nm) + args
         elif k == "construct":
             args = tuple(K(a) for a in n["args"])
             # std::complex(x) with defaulted imaginary part is x for ring purposes; keep generic here
